@@ -122,7 +122,9 @@ func runC16(c *mon.Ctx) {
 	now := BaseTime(c.Seed)
 	endpoints := []string{"https://idp.example.test/sso", "https://idp.example.test/sso?tenant=abc&x=1", "https://idp.example.test:8443/a/b/sso?next=%2Fhome", "http://idp.example.test/"}
 	kinds := []string{"authn-internal", "authn-doc", "logoutreq", "logoutresp"}
-	n := c.N(3000, 150000)
+	n0 := c.N(3000, 150000)
+	dict := DictAll() // after the drawn cases: every string the library source spells out, once, as the relay state
+	n := n0 + len(dict)
 	var prevPage, prevCopy []byte // a page handed out earlier must not change when later pages are built
 	var prevDesc string
 	for k := 0; k < n; k++ {
@@ -150,6 +152,11 @@ func runC16(c *mon.Ctx) {
 			relay = strings.Repeat(`"><x y='`, 600)
 		case 1:
 			relay += c16Relay[r.IntN(len(c16Relay))]
+		case 2, 3:
+			relay = ValueString(r, "source-literal")
+		}
+		if k >= n0 {
+			relay = strings.NewReplacer("\r", "", "\x00", "").Replace(dict[k-n0])
 		}
 		cs.Desc("kind=%s endpoint=%s relay=%q signed=%v", kind, ep, trunc(relay, 80), sp.SignAuthnRequests)
 		var page, docBytes []byte
